@@ -495,8 +495,31 @@ def run(ctx):
             if rv[0] == "bin" and rv[1] in ("Shl", "ShlUnchecked") and rv[3][0] == "k":
                 ush.append((int(describe_operand(un, rv[3])), describe_operand(un, rv[2])))
         ushs = sorted(ush, reverse=True)
-        r.check([s for s, _ in ushs] == [12, 8, 4] and [d.split(".")[-1] for _, d in ushs] == ["0", "1", "2"], "unescape/\\uXXXX-digit-order", where(un), "first digit << 12, second << 8, third << 4, fourth | (same order as the printer)",
-                "the tokenizer combines the hex digits as %s" % ushs)
+        digits_ok = [s for s, _ in ushs] == [12, 8, 4] and [d.split(".")[-1] for _, d in ushs] == ["0", "1", "2"]
+        n_digits = None
+        if not digits_ok and ushs and all(s_ == 4 for s_, _ in ushs):
+            # the accumulating form: value = value << 4 | digit, with a counter of the digits read. The escape has four digits when the first digit
+            # starts the count at c0 and the loop goes on while `count (+1) < K`: digits = 1 (first) + steps + 1 (last)
+            c0 = None
+            for i, j, p, rv, line in un.assigns():
+                m_ = re.match(r"^EscapeState::\w+\((\d+), unwrap\(to_digit\(", describe_rvalue(un, rv))
+                if m_:
+                    c0 = int(m_.group(1))
+            for sb in range(un.n):
+                if un.is_cleanup(sb) or un.term(sb)["k"] != "switch":
+                    continue
+                d_ = switch_desc(un, sb) or ""
+                m1 = re.match(r"^Lt\(state<\w+>\.0, (\d+)\)$", d_)
+                m2 = re.match(r"^Lt\(Add(?:WithOverflow)?\(state<\w+>\.0, (\d+)\)(?:\.0)?, (\d+)\)$", d_)
+                if c0 is not None and (m1 or m2):
+                    # continuing steps: counts c0, c0+1, .. for which the test holds
+                    k_ = int(m1.group(1)) if m1 else int(m2.group(2))
+                    off = 0 if m1 else int(m2.group(1))
+                    steps = len([c_ for c_ in range(c0, c0 + 16) if c_ + off < k_ and all(x + off < k_ for x in range(c0, c_ + 1))])
+                    n_digits = 1 + steps + 1
+            digits_ok = n_digits == 4
+        r.check(digits_ok, "unescape/\\uXXXX-digit-order", where(un), "first digit << 12, second << 8, third << 4, fourth | (same order as the printer)",
+                ("the tokenizer reads %d hex digits for a \\u escape (the printer writes 4): the character after the escape is swallowed - a name ending in a control character is read as a shorter name" % n_digits) if n_digits is not None else "the tokenizer combines the hex digits as %s" % ushs)
         cv = [c for c in un.calls if c.name == "try_from" and "char" in (c.callee.get("targs", "") + str(c.callee.get("self_ty", "")))]
         uw = [c for c in un.calls if c.name in ("unwrap", "expect") and cv and any(s_[0] == "call" and s_[1] is cv[0] for s_ in un.sources(c.args[0]))]
         r.check(len(cv) == 1 and not uw, "unescape/invalid-code-point-is-an-error", cv[0].loc() if cv else where(un), "char::try_from of the escaped code point is matched, not unwrapped (a surrogate escape is a parse error)",
